@@ -10,10 +10,13 @@ CHECK = {'level': 'exploration',
          'n = 5 (plain transcript, thresholds 0 and 2; thorough: all configurations, and completions-before-announcement for plain/threshold 0). distinct_nontrivial = distinct (transcript, threshold, answers, '
          'notification order) classes of (b) containing an out-of-order completion + random long runs (260..340 tokens from a feed model or sorted '
          'canonical tokens, push and pull entry points, stragglers) in which a compaction happened and >= 2 ticks chose a checkpoint + persisted runs with '
-         '>= 2 values reaching a store + race rounds with >= 3 chosen checkpoints',
+         '>= 2 values reaching a store + overlap cases (two concurrent checkpoint runs - explicit callers, or the real Start() timer goroutine plus a stop-path '
+         'caller - with the first run\'s local checkpoint write parked by the H1 store until the second run returned or the checkpointer lock is seen to stay '
+         'held; values reaching each store judged in commit order) + race rounds with >= 3 chosen checkpoints',
  'parts': [{'name': 'exhaustive', 'pkg': 'db', 'run': '^TestVerif_C17_Exhaustive$', 'timeout_q': 400, 'timeout_t': 2400},
            {'name': 'random', 'pkg': 'db', 'run': '^TestVerif_C17_Random$', 'timeout_q': 300, 'timeout_t': 1800},
            {'name': 'persist', 'pkg': 'db', 'run': '^TestVerif_C17_Persist$', 'timeout_q': 300, 'timeout_t': 1800},
+           {'name': 'overlap', 'pkg': 'db', 'run': '^TestVerif_C17_Overlap$', 'timeout_q': 300, 'timeout_t': 1800},
            {'name': 'race', 'pkg': 'db', 'race': True, 'run': '^TestVerif_C17_Race$', 'timeout_q': 400, 'timeout_t': 2400}],
  'min_evals': 1000000,
  'min_counters': {'exhaustive.interleavings': 1000000,
@@ -30,6 +33,9 @@ CHECK = {'level': 'exploration',
                   'random.runs_pull': 259,
                   'persist.persisted_values_checked': 3000,
                   'persist.restarts': 100,
+                  'overlap.persisted_values_checked': 100,
+                  'overlap.cases_two-callers': 20,
+                  'overlap.cases_timer-and-stop-path': 20,
                   'race.ticks_checked': 1000,
                   'race.ticks_choosing_a_checkpoint': 100},
  'race_files': ['db/active_replicator_checkpointer.go'],
@@ -43,7 +49,9 @@ CHECK = {'level': 'exploration',
                  'state-graph coverage relies on the list logic being a deterministic function of (expectedSeqs order, processedSeqs, threshold); status reads '
                  '(calculateSafeProcessedSeq) interleave only in the random and race parts',
                  'persistence: local checkpoint on the rosmar store through the logged/faultable wrapper, remote checkpoint on a recording BLIP peer written '
-                 'for this check (revision-checked setCheckpoint/getCheckpoint), not a second Sync Gateway'],
+                 'for this check (revision-checked setCheckpoint/getCheckpoint), not a second Sync Gateway',
+                 'overlap part: the length of the park (until the second run returned, or ~10 ms of the checkpointer lock staying held) only selects the schedule '
+                 'that is executed; the verdict uses the committed values only'],
 }
 
 META = {'technique': 'runtime monitoring: the real Checkpointer list logic and CheckpointNow persistence path driven with generated protocol-conformant notification '
